@@ -1,6 +1,7 @@
 use crate::fw::Ctx;
 
 pub mod c02;
+pub mod c10;
 
 pub struct Check {
     pub id: &'static str,
@@ -9,10 +10,17 @@ pub struct Check {
 }
 
 pub fn lookup(id: &str) -> Option<Check> {
-    let all = [Check {
-        id: "C02",
-        level: "exploration",
-        run: c02::run,
-    }];
+    let all = [
+        Check {
+            id: "C02",
+            level: "exploration",
+            run: c02::run,
+        },
+        Check {
+            id: "C10",
+            level: "exploration",
+            run: c10::run,
+        },
+    ];
     all.into_iter().find(|c| c.id == id)
 }
